@@ -147,7 +147,7 @@ Proof.
   split; [|apply IH; exact Hrest].
   destruct (snd u) as [[lo b]|].
   - destruct Hm as (_ & _ & _ & _ & _ & He & _). left. exact He.
-  - destruct Hm as [Hg [He|He]]; [left; exact He|right; auto].
+  - destruct Hm as [Hg [He|(He & _)]]; [right; auto|left; exact He].
 Qed.
 
 Theorem json_error_offset_range_proof : forall d n tr, trace n (json_init d) = Some tr -> errs_ok d None tr.
@@ -220,7 +220,6 @@ Proof.
     { destruct H as [->|[->| ->]]; reflexivity. }
     apply stack_matches_valfix. exact Hm.
   - exists stk. split; [reflexivity|exact Hm].
-  - exists stk. split; [reflexivity|apply stack_matches_valfix; exact Hm].
 Qed.
 
 Lemma last_cons_default {A} (l : list A) : forall x d1 d2, last (x :: l) d1 = last (x :: l) d2.
@@ -297,7 +296,6 @@ Proof.
   - split; auto.
   - split; [intros Hq; exfalso; exact (Hvf (s :: st) Hq)|].
     intros [_ Hq]. inversion Hq. congruence.
-  - congruence.
   - congruence.
 Qed.
 
